@@ -324,3 +324,24 @@ def q_dist(rng, n, positive=False):
 def q_opinion(rng, n, kind=None, positive=False):
     b, u = q_simplex(rng, n, kind)
     return (b, u, q_dist(rng, n, positive))
+
+
+def tiny_projection_opinion(rng, ty, n):
+    """exactly well-formed dyadic opinion in which one value has zero belief, a tiny base rate (well above machine
+    epsilon) and therefore a projected probability a*u below the rounding unit of 1; that value bounds the maximal
+    uncertainty (u_max = u), so the relative accuracy of its tiny projection matters"""
+    assert n >= 2
+    j, e = rng.choice([(10, 20), (8, 16), (6, 20)] if ty == "f32" else [(20, 40), (10, 40), (20, 30), (8, 50)])
+    uu = 2.0 ** -j
+    while True:
+        k = rng.below(n)
+        kk = composition(rng, 8, n - 1, zero_bias=0)
+        if all(v > 0 for v in kk):
+            break
+    b = [v / 8.0 for v in kk]
+    b[rng.below(n - 1)] -= uu
+    b.insert(k, 0.0)
+    a = grid_dist(rng, n - 1, 8, positive=True)
+    a[rng.below(n - 1)] -= 2.0 ** -e
+    a.insert(k, 2.0 ** -e)
+    return (b, uu, a)
